@@ -312,8 +312,8 @@ class Interp:
                 raise AnalysisError(f"pyint: abstract value passed to a native callable at {where}")
         try:
             return f(*args, **kwargs)
-        except AnalysisError:
-            raise
+        except (AnalysisError, Raised):
+            raise  # (an interpreted exception escaping a lazily drained generator stays what it is)
         except Exception as e:  # the trusted library raised: becomes an interpreted exception
             raise Raised(type(e).__name__, str(e))
 
@@ -900,6 +900,10 @@ class Interp:
                     pass
             raise AnalysisError(f"pyint: abstract record {base!r} has no attribute '{attr}' (extend the rule's domain)")
         if isinstance(base, ClassRef):
+            if attr == "__name__":
+                return base.node.name
+            if attr == "__qualname__":
+                return getattr(base.node, "_qual", base.node.name)
             return self.class_attr(base, attr, depth)
         if isinstance(base, tuple) and base and base[0] == "$module":
             m = base[1]
